@@ -1,6 +1,7 @@
 /- Helper lemmas for Props/C03.lean: hang_binop (Model/HangOp.lean). -/
 import StyluaModel.Model.HangOp
 import StyluaModel.Lemmas.Semi
+import StyluaModel.Lemmas.EndToken
 namespace StyluaModel.HangOpLemmas
 open StyluaModel.Trivia StyluaModel.Semi StyluaModel.HangOp StyluaModel.SemiLemmas StyluaModel.TriviaLemmas
 
@@ -169,3 +170,102 @@ theorem arg_comments (eol : List Char) (aTrail : List Out) (sep : Option (List T
     simp [commentsOut_append, sameLine, commentsOut_spaced, blocksOut_comments, linesOut_comments, commentsOut,
       commentsOut_ownLine, commentsOut_only, h1, h2, List.append_assoc]
 end StyluaModel.CallArgLemmas
+
+namespace StyluaModel.LineSafe
+open StyluaModel.Trivia StyluaModel.Semi StyluaModel.HangOp StyluaModel.FieldKey
+
+theorem lineSafe_append (a : List Out) : ∀ b, lineSafe a = true → lineSafe b = true → lineSafe (a ++ b) = true := by
+  induction a with
+  | nil => intro b _ hb; simpa using hb
+  | cons x r ih =>
+    intro b ha hb
+    cases x with
+    | newline => rw [List.cons_append, lineSafe_newline]; rw [lineSafe_newline] at ha; exact ih b ha hb
+    | indent => rw [List.cons_append, lineSafe_indent]; rw [lineSafe_indent] at ha; exact ih b ha hb
+    | space => rw [List.cons_append, lineSafe_space]; rw [lineSafe_space] at ha; exact ih b ha hb
+    | comment k t =>
+      cases k with
+      | line =>
+        cases r with
+        | nil => simp [lineSafe] at ha
+        | cons y ys =>
+          cases y with
+          | newline =>
+            simp only [lineSafe] at ha
+            simp only [List.cons_append, lineSafe]
+            have := ih b (by simpa [lineSafe] using ha) hb
+            simpa [lineSafe] using this
+          | indent => simp [lineSafe] at ha
+          | space => simp [lineSafe] at ha
+          | comment k2 t2 => simp [lineSafe] at ha
+      | block lvl =>
+        have ha' : lineSafe r = true := by simpa [lineSafe] using ha
+        have := ih b ha' hb
+        simpa [lineSafe] using this
+      | shebang =>
+        have ha' : lineSafe r = true := by simpa [lineSafe] using ha
+        have := ih b ha' hb
+        simpa [lineSafe] using this
+
+theorem lines_safe (l : List Out) : lineSafe (l.flatMap (fun c => [Out.indent, c, Out.newline])) = true := by
+  induction l with
+  | nil => rfl
+  | cons x r ih =>
+    simp only [List.flatMap_cons, List.cons_append, List.nil_append, lineSafe_indent]
+    cases x with
+    | comment k t => cases k <;> simpa [lineSafe] using ih
+    | newline => simpa [lineSafe] using ih
+    | indent => simpa [lineSafe] using ih
+    | space => simpa [lineSafe] using ih
+
+/-- the new leading trivia of a table field's key is line-safe: the key is never swallowed by the comments moved in
+front of it -/
+theorem keyLeading_safe (eol : List Char) (m s : Bool) (kl kt el et : List Triv) :
+    lineSafe (keyLeading eol m s kl kt el et) = true := by
+  unfold keyLeading
+  apply lineSafe_append
+  · apply lineSafe_append
+    · exact load_leading_safe eol kl
+    · exact lines_safe _
+  · cases m <;> simp [lineSafe]
+theorem ownLine_safe (l : List Out) : ∀ rest, lineSafe rest = true →
+    lineSafe (ownLine l ++ (Out.newline :: rest)) = true := by
+  induction l with
+  | nil => intro rest h; simpa [ownLine, lineSafe_newline] using h
+  | cons x r ih =>
+    intro rest h
+    have hr := ih rest h
+    simp only [ownLine, List.flatMap_cons, List.cons_append, List.nil_append, List.append_assoc, lineSafe_newline,
+      lineSafe_indent] at hr ⊢
+    cases x with
+    | comment k t =>
+      cases k with
+      | line =>
+        -- what follows the comment starts with a line ending
+        cases r with
+        | nil => simpa [lineSafe] using h
+        | cons y ys =>
+          simp only [List.flatMap_cons, List.cons_append, List.nil_append, List.append_assoc] at hr ⊢
+          simpa [lineSafe] using hr
+      | block lvl => simpa [lineSafe] using hr
+      | shebang => simpa [lineSafe] using hr
+    | newline => simpa [lineSafe] using hr
+    | indent => simpa [lineSafe] using hr
+    | space => simpa [lineSafe] using hr
+
+/-- with no comment behind the operator, the hung operator's leading trivia is line-safe -/
+theorem hang_safe (a b c : List Triv) (hb : rawComments b = []) : lineSafe (hangBinop a b c).1 = true := by
+  simp only [hangBinop, hb, sameLine, List.flatMap_nil, List.append_nil, List.append_assoc]
+  have h2 := ownLine_safe (rawComments c) [Out.indent] (by simp [lineSafe])
+  -- ownLine a ++ (ownLine c ++ [newline, indent]): the second part starts with a line ending or is the final pair
+  cases hc : rawComments c with
+  | nil =>
+    simp only [ownLine, List.flatMap_nil, List.nil_append]
+    exact ownLine_safe (rawComments a) [Out.indent] (by simp [lineSafe])
+  | cons y ys =>
+    rw [hc] at h2
+    simp only [ownLine, List.flatMap_cons, List.cons_append, List.nil_append, List.append_assoc] at h2 ⊢
+    have := ownLine_safe (rawComments a) (Out.indent :: y :: (ys.flatMap (fun c => [Out.newline, Out.indent, c]) ++ [Out.newline, Out.indent]))
+      (by simpa [lineSafe_newline] using h2)
+    simpa [ownLine] using this
+end StyluaModel.LineSafe
